@@ -83,6 +83,9 @@ pub struct FaultRule {
     pub method: Option<MethodNum>,
     pub ordinal: Option<u64>,
     pub exit: u32,
+    /// false: the callee aborts before doing anything; true: the callee runs (and may re-enter
+    /// its caller), then aborts — everything it did is rolled back
+    pub after: bool,
 }
 
 #[derive(Clone, Debug, Default)]
